@@ -305,7 +305,7 @@ class ExprMixin:
             hint = self.expected_sort
             if isinstance(hint, DictSort):
                 return [(st, self.dict_empty(hint))]
-            raise Unsupported(node, "empty dict literal without sort hint")
+            return [(st, PyTuple(()))]     # untyped empty literal
         raise Unsupported(node, "dict display")
 
     def dict_empty(self, s: DictSort) -> Val:
